@@ -39,12 +39,12 @@ NODE_KEYS = ["radius", "length", "axial_resistivity", "capacitance", "HH_gNa", "
 RANGE = {"radius": (0.5, 10.0), "length": (5.0, 100.0), "axial_resistivity": (100.0, 5000.0), "capacitance": (0.5, 2.0),
          "HH_gNa": (0.05, 0.3), "HH_gK": (0.01, 0.1), "v": (-80.0, -50.0), "HH_m": (0.0, 1.0),
          "IonotropicSynapse_gS": (1e-4, 1e-2), "TestSynapse_gC": (1e-4, 1e-2), "IonotropicSynapse_s": (0.0, 1.0),
-         "IonotropicSynapse_k_minus": (0.01, 0.1)}
+         "IonotropicSynapse_k_minus": (0.01, 0.1), "TestSynapse_c": (0.0, 1.0)}
 SYN = ["IonotropicSynapse", "TestSynapse"]
 
 
 def budget(tier):
-    return 8 if tier == "quick" else 150
+    return 12 if tier == "quick" else 150
 
 
 def wall_guard(tier):
@@ -78,7 +78,7 @@ def _assignment(draw, spec):
     N = len(rows)
     kind = spec["morph"]["kind"]
     edges = spec["edges"]
-    on_edges = bool(edges) and draw(st.integers(0, 2)) == 0
+    on_edges = bool(edges) and draw(st.booleans())
     if on_edges:
         t = draw(st.sampled_from(sorted({e["type"] for e in edges})))
         key = draw(st.sampled_from([k for k in RANGE if k.startswith(t + "_")]))
@@ -135,6 +135,19 @@ def _spec(draw, tier):
     spec = {"morph": morph, "hh_rows": hh_rows, "edges": edges}
     spec["assignments"] = [draw(_assignment(spec)) for _ in range(draw(st.integers(1, 4)))]
     spec["simulate"] = draw(st.integers(0, 2)) == 0
+    a0 = spec["assignments"][0]
+    if a0["on"] == "nodes" and a0["view"] != "module" and draw(st.integers(0, 3)) == 0:
+        # override chain A, B, A': the same key is assigned on a view, then on the whole module, then on the first
+        # view again - the last assignment wins on its rows whichever route carries it (set order, order of the
+        # data_set chain, order of the trainables), and the run is simulated
+        lo, hi = RANGE[a0["key"]]
+        aB = {"on": "nodes", "view": "module", "key": a0["key"], "targets": list(range(N)), "init_none": False}
+        aB["init"] = [draw(fl(lo, hi)) for _ in _groups_for(spec, aB)]
+        aB["vals"] = [draw(fl(lo, hi)) for _ in _groups_for(spec, aB)]
+        a2 = dict(a0, vals=[draw(fl(lo, hi)) for _ in a0["vals"]], init=[draw(fl(lo, hi)) for _ in a0["init"]], init_none=False)
+        if _groups_for(spec, aB) and _groups_for(spec, a0):
+            spec["assignments"] = [a0, aB, a2]
+            spec["simulate"] = True
     spec["backend"] = draw(st.sampled_from(gn.BACKENDS))
     return spec
 
@@ -285,7 +298,7 @@ def judge(spec, tier="quick"):
         if a["on"] == "edges" and len({e["type"] for e in spec["edges"]}) > 1:
             nontriv = True
             out.classes.append("edge key, two types")
-        if a["key"] in ("v", "HH_m", "IonotropicSynapse_s"):
+        if a["key"] in ("v", "HH_m", "IonotropicSynapse_s", "TestSynapse_c"):
             nontriv = True
             out.classes.append("state key")
     if nontriv:
